@@ -16,7 +16,8 @@
       (ROA prefixes with host bits set are outside the model);
     * `Src` strings ("host:port") are natural-number labels;
     * a TCP connection is `none | open | closed` (closed = non-nil but every Write fails);
-    * the lifetime timer is a flag (`client.timer != nil`); its expiry is an input event.
+    * the lifetime timer is a flag (`client.timer != nil`) plus the generation it was armed with;
+      its expiry is an input event that carries the generation of the timer that fired.
   Core-only (no Mathlib) so that the line-protocol driver links as a lean_exe.
 -/
 namespace Roa
@@ -182,12 +183,14 @@ structure Client where
   pending    : List Rec := []
   conn       : Conn := .none
   timer      : Bool := false
+  timerGen   : Nat := 0        -- roaClient.timerGen: generation of the timer armed last
   queries    : List Bool := []
 deriving Repr, DecidableEq, Inhabited
 
 structure Mgr where
-  clients : List Client := []
-  table   : Table := []
+  clients  : List Client := []
+  table    : Table := []
+  timerSeq : Nat := 0            -- roaManager.timerGen: lifetime timers armed so far
 deriving Repr, Inhabited
 
 /-- queries written to the cache -/
@@ -212,7 +215,7 @@ inductive Ev
   | connected (h : Nat)       -- HandleROAEvent(roaConnected) + the softReset that opens established()
   | connClosed (h : Nat)      -- the cache closed the connection (established() has closed its end)
   | disconnected (h : Nat)    -- HandleROAEvent(roaDisconnected)
-  | lifetime (h : Nat)        -- HandleROAEvent(roaLifetimeout)
+  | lifetime (h : Nat) (gen : Nat) -- HandleROAEvent(roaLifetimeout) of the timer armed as number `gen`
   | rtr (h : Nat) (pdu : Pdu) -- HandleROAEvent(roaRTR)
   | enable (h : Nat)
   | disable (h : Nat)         -- Disable and Reset
@@ -291,7 +294,7 @@ def step (m : Mgr) : Ev → Mgr × Bool × List Sent
   | .deleteServer h =>
     match findClient m.clients h with
     | none => (m, false, [])
-    | some _ => ({ clients := m.clients.filter (fun c => c.host != h), table := deleteAll m.table h }, true, [])
+    | some _ => ({ m with clients := m.clients.filter (fun c => c.host != h), table := deleteAll m.table h }, true, [])
   | .connected h =>
     match findClient m.clients h with
     | none => (m, true, [])
@@ -306,22 +309,28 @@ def step (m : Mgr) : Ev → Mgr × Bool × List Sent
     match findClient m.clients h with
     | none => (m, true, [])
     | some c =>
+      -- the timer is armed only when none is pending; arming takes the next generation
+      let seq := if c.timer then m.timerSeq else m.timerSeq + 1
       let c' : Client := { c with endOfData := false, pending := [], conn := .none, timer := true,
+                                  timerGen := if c.timer then c.timerGen else seq,
                                   oldSession := c.session, queries := [] }
-      ({ m with clients := setClient m.clients c' }, true, [])
-  | .lifetime h =>
+      ({ m with clients := setClient m.clients c', timerSeq := seq }, true, [])
+  | .lifetime h gen =>
     match findClient m.clients h with
     | none => (m, true, [])
     | some c =>
-      let c' := { c with timer := false }
-      if c.oldSession ≠ c.session then ({ m with clients := setClient m.clients c' }, true, [])
-      else ({ clients := setClient m.clients c', table := deleteAll m.table h }, true, [])
+      -- stale: the timer was stopped (End of Data, DeleteServer) or replaced after it had fired
+      if c.timer = false ∨ gen ≠ c.timerGen then (m, true, [])
+      else
+        let c' := { c with timer := false }
+        if c.oldSession ≠ c.session then ({ m with clients := setClient m.clients c' }, true, [])
+        else ({ m with clients := setClient m.clients c', table := deleteAll m.table h }, true, [])
   | .rtr h pdu =>
     match findClient m.clients h with
     | none => (m, true, [])
     | some c =>
       let (t, c', s) := handleRTR m.table c pdu
-      ({ clients := setClient m.clients c', table := t }, true, s)
+      ({ m with clients := setClient m.clients c', table := t }, true, s)
   | .enable h =>
     match findClient m.clients h with
     | none => (m, false, [])
@@ -331,13 +340,13 @@ def step (m : Mgr) : Ev → Mgr × Bool × List Sent
   | .disable h =>
     match findClient m.clients h with
     | none => (m, false, [])
-    | some c => ({ clients := setClient m.clients c.reset, table := deleteAll m.table h }, true, [])
+    | some c => ({ m with clients := setClient m.clients c.reset, table := deleteAll m.table h }, true, [])
   | .softReset h =>
     match findClient m.clients h with
     | none => (m, false, [])
     | some c =>
       let (c', s) := c.softReset
-      ({ clients := setClient m.clients c', table := deleteAll m.table h }, c.conn != .closed, s)
+      ({ m with clients := setClient m.clients c', table := deleteAll m.table h }, c.conn != .closed, s)
 
 def run (m : Mgr) (evs : List Ev) : Mgr := evs.foldl (fun m e => (step m e).1) m
 
